@@ -106,7 +106,7 @@ Proof. induction ll as [|a r IH]; intros H; [constructor|]. cbn [concat] in H. a
 
 (* Property C03 on the model, real and string variables *)
 Theorem mt_equals_st_rs debug tpes lookup ls len0 rest stop_st e_st b_st t_st encs first others e_mt b_mt t_mt id str :
-  Forall line_ok ls -> starts_with_time ls ->
+  Forall line_ok ls ->
   contig 0 ((0%nat, len0) :: rest) -> (length (body ls) <= end_of 0 ((0%nat, len0) :: rest))%nat ->
   nth_error tpes id = Some (rs_tpe str) ->
   N.of_nat (length (body ls)) <= stop_st + 1 ->
@@ -122,8 +122,8 @@ Theorem mt_equals_st_rs debug tpes lookup ls len0 rest stop_st e_st b_st t_st en
     load_signal lz_decompress b_mt id (rs_tpe str) = Ok s_mt /\
     observe_signal s_st = observe_signal s_mt /\ t_st = t_mt.
 Proof.
-  intros Hok Hst Hcontig Hend Htp Hstop Hrs Hfs Hls Hchunks Hencs Happ Hfm Hlm Hhyp.
-  destruct (mt_common parse_f64 lz_compress lz_decompress lz_ok cap cap_pos cap_u16 debug tpes lookup ls len0 rest stop_st e_st encs Hok Hst Hcontig Hend Hstop Hrs Hchunks)
+  intros Hok Hcontig Hend Htp Hstop Hrs Hfs Hls Hchunks Hencs Happ Hfm Hlm Hhyp.
+  destruct (mt_common parse_f64 lz_compress lz_decompress lz_ok cap cap_pos cap_u16 debug tpes lookup ls len0 rest stop_st e_st encs Hok Hcontig Hend Hstop Hrs Hchunks)
     as (ops & opss & Ho & Hr & Hcat & Hruns & Hopt).
   destruct (Hhyp ops Ho) as (Hsorted & Hopok & Hbud).
   assert (Hopsok : Forall (fun o => Forall (rs_op_ok id str) o /\ ops_cost id o < 4294967264) opss).
@@ -145,7 +145,7 @@ Proof.
 Qed.
 
 Theorem read_values_mt_equals_st_rs debug tpes lookup ls max_threads min_chunk b_st t_st b_mt t_mt id str :
-  Forall line_ok ls -> starts_with_time ls -> nth_error tpes id = Some (rs_tpe str) ->
+  Forall line_ok ls -> nth_error tpes id = Some (rs_tpe str) ->
   read_values_st parse_f64 lz_compress cap debug tpes lookup (body ls) = Ok (b_st, t_st) -> N.of_nat (length t_st) < 4294967296 ->
   read_values_mt parse_f64 lz_compress cap debug tpes lookup (body ls) max_threads min_chunk = Ok (b_mt, t_mt) ->
   N.of_nat (length t_mt) < 4294967296 ->
@@ -156,7 +156,7 @@ Theorem read_values_mt_equals_st_rs debug tpes lookup ls max_threads min_chunk b
     load_signal lz_decompress b_mt id (rs_tpe str) = Ok s_mt /\
     observe_signal s_st = observe_signal s_mt /\ t_st = t_mt.
 Proof.
-  intros Hok Hst Htp Hs Hls Hm Hlm Hhyp.
+  intros Hok Htp Hs Hls Hm Hlm Hhyp.
   unfold read_values_st in Hs.
   destruct (read_single_stream parse_f64 lz_compress cap debug tpes lookup (body ls) _ true) as [e_st| |] eqn:Es; try discriminate. cbn [bind] in Hs.
   unfold read_values_mt in Hm. unfold body at 1 in Hm. cbn iota in Hm. fold (body ls) in Hm. unfold read_values_mt_nonempty in Hm.
